@@ -6,6 +6,7 @@
 package main
 
 import (
+	"time"
 	"flag"
 	"fmt"
 	"os"
@@ -230,6 +231,173 @@ func main() {
 		res.Add("known_answer_executions", r.Executions)
 		if locked == (races > 0) {
 			res.Violate("known-answer", fmt.Sprintf("race locked=%v", locked), fmt.Sprintf("race detector: locked=%v races=%d", locked, races), nil)
+		}
+	}
+	// (2d) RWMutex: two readers may overlap, a writer excludes everybody; Once runs its function exactly once and the
+	// other callers wait for it; atomic read-modify-write never loses an update while load+store does
+	{
+		overlap, bad := false, ""
+		r := vsched.Explore(func() {
+			var m vsched.RWMutex
+			var wg vsched.WaitGroup
+			readers, writers := 0, 0
+			wg.Add(3)
+			for i := 0; i < 2; i++ {
+				vsched.Go("reader", func() {
+					m.RLock()
+					readers++
+					if writers > 0 {
+						vsched.Observe("bad", "reader next to a writer")
+					}
+					if readers == 2 {
+						vsched.Observe("overlap", true)
+					}
+					vsched.Pause()
+					readers--
+					m.RUnlock()
+					wg.Done()
+				})
+			}
+			vsched.Go("writer", func() {
+				m.Lock()
+				writers++
+				if readers > 0 || writers > 1 {
+					vsched.Observe("bad", "writer not alone")
+				}
+				vsched.Pause()
+				writers--
+				m.Unlock()
+				wg.Done()
+			})
+			wg.Wait()
+		}, vsched.ExploreOpts{Bound: 2, Outcome: func(x *vsched.Execution) string {
+			for _, o := range x.Obs {
+				if o.Kind == "overlap" {
+					overlap = true
+				}
+				if o.Kind == "bad" {
+					bad = fmt.Sprint(o.Val)
+				}
+			}
+			if x.Deadlock {
+				return "deadlock"
+			}
+			return "ok"
+		}})
+		res.Add("known_answer_executions", r.Executions)
+		if !overlap || bad != "" || r.Outcomes["deadlock"] != 0 {
+			res.Violate("known-answer", "rwmutex", fmt.Sprintf("RWMutex: readers overlapped=%v, exclusion violated=%q, outcomes %v", overlap, bad, r.Outcomes), nil)
+		}
+		counts := map[string]bool{}
+		r = vsched.Explore(func() {
+			var once vsched.Once
+			var wg vsched.WaitGroup
+			n, seenUnfinished := 0, false
+			finished := false
+			wg.Add(3)
+			for i := 0; i < 3; i++ {
+				vsched.Go("caller", func() {
+					once.Do(func() { n++; vsched.Pause(); finished = true })
+					if !finished {
+						seenUnfinished = true
+					}
+					wg.Done()
+				})
+			}
+			wg.Wait()
+			vsched.Observe("once", fmt.Sprintf("%d/%v", n, seenUnfinished))
+		}, vsched.ExploreOpts{Bound: 2, Outcome: func(x *vsched.Execution) string {
+			for _, o := range x.Obs {
+				counts[fmt.Sprint(o.Val)] = true
+			}
+			if x.Deadlock {
+				return "deadlock"
+			}
+			return "ok"
+		}})
+		res.Add("known_answer_executions", r.Executions)
+		if len(counts) != 1 || !counts["1/false"] || r.Outcomes["deadlock"] != 0 {
+			res.Violate("known-answer", "once", fmt.Sprintf("Once: results %v outcomes %v (want exactly 1/false)", counts, r.Outcomes), nil)
+		}
+		for _, rmw := range []bool{true, false} {
+			finals := map[int32]bool{}
+			races := 0
+			r = vsched.Explore(func() {
+				var c vsched.AtomicInt32
+				var wg vsched.WaitGroup
+				wg.Add(2)
+				for i := 0; i < 2; i++ {
+					vsched.Go("inc", func() {
+						if rmw {
+							c.Add(1)
+						} else {
+							c.Store(c.Load() + 1)
+						}
+						wg.Done()
+					})
+				}
+				wg.Wait()
+				vsched.Observe("final", c.Load())
+			}, vsched.ExploreOpts{Bound: 2, Run: vsched.Options{Races: true}, Outcome: func(x *vsched.Execution) string {
+				races += len(x.Races)
+				for _, o := range x.Obs {
+					finals[o.Val.(int32)] = true
+				}
+				return "ok"
+			}})
+			res.Add("known_answer_executions", r.Executions)
+			if races != 0 || !finals[2] || finals[1] == rmw {
+				res.Violate("known-answer", fmt.Sprintf("atomic rmw=%v", rmw), fmt.Sprintf("atomic counter: read-modify-write=%v finals=%v races=%d", rmw, finals, races), nil)
+			}
+		}
+	}
+	// (2e) Timer / Ticker / context deadline: a stopped timer never fires, an unstopped one does; a ticker delivers as many
+	// ticks as its consumer waits for and does not keep the execution alive afterwards; a timeout cancels the context
+	// and its children with DeadlineExceeded
+	{
+		seen := map[string]bool{}
+		r := vsched.Explore(func() {
+			t := vsched.NewTimer(time.Second)
+			stopped := vsched.NewTimer(time.Second)
+			stopped.Stop()
+			fired := false
+			vsched.AfterFunc(time.Second, func() { fired = true })
+			k := vsched.NewTicker(10 * time.Millisecond)
+			n := 0
+			for n < 3 {
+				vsched.In[time.Time](k.C).Recv()
+				n++
+			}
+			k.Stop()
+			vsched.In[time.Time](t.C).Recv()
+			ctx, cancel := vsched.WithTimeout(vsched.Background(), time.Minute)
+			child, cancel2 := vsched.WithCancel(ctx)
+			vsched.In[struct{}](child.Done()).Recv()
+			vsched.Sleep(time.Hour)
+			st := "not-fired"
+			if vsched.Select(true, vsched.CaseRecv[time.Time](stopped.C)) == 0 {
+				st = "fired"
+			}
+			vsched.Observe("r", fmt.Sprintf("ticks=%d stopped-timer=%s afterfunc=%v err=%v/%v", n, st, fired, ctx.Err(), child.Err()))
+			cancel()
+			cancel2()
+			vsched.NewTicker(time.Millisecond) // still running at the end: must not keep the execution alive
+		}, vsched.ExploreOpts{Bound: 1, Run: vsched.Options{MaxPoints: 400, DefaultSleepBudget: 1}, Outcome: func(x *vsched.Execution) string {
+			for _, o := range x.Obs {
+				seen[fmt.Sprint(o.Val)] = true
+			}
+			if x.Deadlock {
+				return "deadlock"
+			}
+			if x.HorizonHit {
+				return "horizon"
+			}
+			return "ok"
+		}})
+		res.Add("known_answer_executions", r.Executions)
+		want := "ticks=3 stopped-timer=not-fired afterfunc=true err=context deadline exceeded/context deadline exceeded"
+		if len(seen) != 1 || !seen[want] || r.Outcomes["deadlock"] != 0 || r.Outcomes["horizon"] != 0 {
+			res.Violate("known-answer", "timers", fmt.Sprintf("timers/tickers/deadline: results %v outcomes %v (want only %q)", seen, r.Outcomes, want), nil)
 		}
 	}
 	res.Add("evaluations", res.Counters["conformance_sequences"]+res.Counters["known_answer_executions"])
